@@ -3,6 +3,7 @@ package main
 // C05 — idempotent producer never writes a message twice (structural clauses).
 
 import (
+	"fmt"
 	"go/token"
 	"sort"
 	"strings"
@@ -147,7 +148,7 @@ func c05Batch(c *Ctx) {
 	p := c.P
 	rule := "C05.batch"
 	c.Doc(rule, "produceSet.add: RecordBatch{FirstSequence ← msg.sequenceNumber under Idempotent, ProducerID/ProducerEpoch ← ps.producerID/producerEpoch}; newProduceSet takes them from txnmgr.getProducerID(); retryBatch re-sends the very partition set it was given")
-	c.Floor(rule, 5)
+	c.Floor(rule, 8)
 	if fn := c.NeedFn(rule, "produceSet.add"); fn != nil {
 		lits := p.literalsOf(fn, "RecordBatch")
 		if len(lits) != 1 {
@@ -165,6 +166,37 @@ func c05Batch(c *Ctx) {
 				c.Check(okVal && g, rule, fn, "FirstSequence", st, "batch.FirstSequence ← sequenceNumber of the first message, under Idempotent", "batch.FirstSequence is not the first message's sequence number (or set without Idempotent)", path)
 			}
 		}
+	}
+	// the identity of a batch is fixed when it is built: nobody re-stamps an existing batch (a resent batch must carry
+	// the identical sequence range and epoch, or the broker cannot recognise it as a duplicate)
+	nW := 0
+	for _, fn := range p.Fns {
+		if rootOf(fn).Pkg != p.Sarama || p.Name(fn) == "RecordBatch.decode" {
+			continue
+		}
+		for _, b := range fn.Blocks {
+			for _, in := range b.Instrs {
+				st, ok := in.(*ssa.Store)
+				if !ok {
+					continue
+				}
+				ch := fieldChain(st.Addr)
+				if len(ch) == 0 || ch[len(ch)-1].owner != "RecordBatch" {
+					continue
+				}
+				f := ch[len(ch)-1].name
+				if f != "ProducerID" && f != "ProducerEpoch" && f != "FirstSequence" {
+					continue
+				}
+				nW++
+				_, fresh := ch[0].base.(*ssa.Alloc)
+				fresh = fresh && len(ch) == 1
+				c.Check(fresh, rule, fn, "identity-set-at-construction:"+f, st, "RecordBatch."+f+" is assigned on the batch being built", "RecordBatch."+f+" of an existing batch is overwritten: a batch that is sent again (retryBatch wraps the failed partition set in a new produce set) no longer carries the sequence range / producer id / epoch it was first sent with, so the broker cannot recognise the duplicate (or fences the resend)", nil)
+			}
+		}
+	}
+	if nW < 3 {
+		c.Unresolved(rule, fmt.Sprintf("stores to RecordBatch.ProducerID/ProducerEpoch/FirstSequence (found %d)", nW))
 	}
 	if fn := c.NeedFn(rule, "newProduceSet"); fn != nil {
 		lits := p.literalsOf(fn, "produceSet")
